@@ -623,11 +623,14 @@ class Exec:
         r = None
         for off in range(o.size - size, -1, -size):
             v = self.load_raw(o, off, size)
-            if not isinstance(v, int):
+            if isinstance(v, int):
+                t = z3.BitVecVal(v, size * 8)
+            elif isinstance(v, z3.BitVecRef) and v.size() == size * 8:
+                t = v                       # a table with symbolic entries (C17: arbitrary CRC table)
+            else:
                 return None
-            t = z3.BitVecVal(v, size * 8)
             r = t if r is None else z3.If(addr == o.base + off, t, r)
-        return z3.simplify(r)
+        return r
 
     def coerce(self, v, ty):
         if isinstance(ty, FloatT):
